@@ -110,22 +110,25 @@ def subSecretKeys (ops : CryptoOps P) (v s : Nat) (i j : Nat) : Nat × Nat :=
 goes through the STORED bytes: `PrivateKey * &PublicKey` (key.rs:209-229) calls `other.point()` (decompress + `expect`, a panic site)
 and compresses the product into a new `PublicKey`, which the second multiplication decompresses again. -/
 
-/-- `PrivateKey * &PublicKey` on the stored bytes of the key: `none` = the panic of `PublicKey::point()`. The strict decoder `ops.dec`
-over-approximates the panic (dalek's `decompress` is permissive) and agrees with it on every encoding `ops.enc B` of a point. -/
-def mulKeyBytes (ops : CryptoOps P) (a : Nat) (key : Bytes) : Option Bytes :=
-  match ops.dec key with
+/-- `PrivateKey * &PublicKey` on the stored bytes of the key: `none` = the panic of `PublicKey::point()`. `point()` does NOT use
+`PublicKey::from_slice` (= `ops.dec`, canonical encodings only) but dalek's PERMISSIVE `CompressedEdwardsY::decompress`; as in
+Model/Scan.lean that decoder is the extra parameter `decP` (instantiated with `Keys.decompressDalek` on 32 bytes — the `keyPoint` of
+Model/KeyOps.lean — by the driver and with `decPermissive`, Proofs/EdwardsPermissive.lean, in the Ed25519 theorems). A `PublicKey` built
+through its public field may hold non-canonical bytes that decompress (`edff…ff7f` = y ≡ 0, `0100…0080` = "−0"): no panic there. -/
+def mulKeyBytes (ops : CryptoOps P) (decP : Bytes → Option P) (a : Nat) (key : Bytes) : Option Bytes :=
+  match decP key with
   | none => none
   | some B => some (ops.enc (ops.smul a B))
 
 /-- `KeyGenerator::from_random(view, spend, random).rv` with both `Mul` steps and the intermediate `PublicKey` explicit -/
-def deriveSenderBytes (ops : CryptoOps P) (random : Nat) (view : Bytes) : Option Bytes :=
-  match mulKeyBytes ops random view with                          -- random * &view
+def deriveSenderBytes (ops : CryptoOps P) (decP : Bytes → Option P) (random : Nat) (view : Bytes) : Option Bytes :=
+  match mulKeyBytes ops decP random view with                          -- random * &view
   | none => none
-  | some rV => mulKeyBytes ops (Gen.mulFactor % ops.l) rV         -- PrivateKey::from_scalar(MONERO_MUL_FACTOR.into()) * &(..)
+  | some rV => mulKeyBytes ops decP (Gen.mulFactor % ops.l) rV         -- PrivateKey::from_scalar(MONERO_MUL_FACTOR.into()) * &(..)
 
 /-- `KeyGenerator::from_key(keys, random).rv`, likewise -/
-def deriveReceiverBytes (ops : CryptoOps P) (keysView : Nat) (random : Bytes) : Option Bytes :=
-  match mulKeyBytes ops keysView random with                      -- keys.view * &random
+def deriveReceiverBytes (ops : CryptoOps P) (decP : Bytes → Option P) (keysView : Nat) (random : Bytes) : Option Bytes :=
+  match mulKeyBytes ops decP keysView random with                      -- keys.view * &random
   | none => none
-  | some vR => mulKeyBytes ops (Gen.mulFactor % ops.l) vR
+  | some vR => mulKeyBytes ops decP (Gen.mulFactor % ops.l) vR
 end Monero
